@@ -43,16 +43,30 @@ def items(tier):
     return out
 
 
+def option_items(tier):
+    """other ways of calling simulate(): a step width other than 1, and runs continued after a stop (state and logs kept)"""
+    out = []
+    base = [it for it in items(tier) if it[1]["max_time"] > 2]
+    for sp, o in base[:: (9 if tier == "quick" else 3)]:
+        out.append((sp, dict(o, unit_time=2, max_time=o["max_time"] * 2)))
+        out.append((sp, dict(o, unit_time=3, max_time=o["max_time"] * 3)))
+        for k in (1, 2, 3):
+            out.append((sp, dict(o, resume_from=k)))
+    return out
+
+
 def run(tier, seed):
     H, D = (4, 1) if tier == "quick" else (4, 2)
     its = items(tier)
     col = stepcheck.explore(its, MONS, H, D, seed=seed, max_group=1 if tier == "quick" else 2)
+    oi = option_items(tier)
+    col.merge(stepcheck.explore(oi, MONS, 0, 0, seed=seed))
     meta = {
         "level": "model_checking",
         "rule": "FS workflows on 3 tasks x all cost-rate triples over {0,1,2.5} in two teams plus an empty team (runs to completion and runs cut by max_time=2 -> FAILURE) "
         "models whose workers and facilities share one name (different IDs), and the FAC family (workplaces with facilities of rates 1 and 2), each explored over all absence answers (project, each worker, each facility; thorough: also pairs) "
         "up to horizon H with <= D non-default answers; non-trivial = distinct (model, resource, charged rate>0, at-absence-step) events",
-        "bounds": {"H": H, "D": D, "base_models": len(its)},
+        "bounds": {"H": H, "D": D, "base_models": len(its), "option_variants(unit_time 2/3, resumed at 1/2/3)": len(oi)},
         "assumptions": ["cost oracle reads the state logs; their agreement with the live state is C08's job"],
     }
     if not col.nontrivial:
